@@ -914,6 +914,38 @@ example : ALV.Gen.C01.binary.run2 n!"__sub__" (.list 0 [.atom 1]) (.iterable fal
   rw [src_binary_is_model, src_rbinary_is_model]
   simp [binaryDunder, rbinaryDunder]
 
+/-- **`lazy_misc.elementwise`, regenerated**: the decision tree the translator reads from the source
+(decorator default `pos = 0`, `positional`, where `arg` is found, the Iterable / STR_TYPES / SOME_GEN_TYPES / Stream
+tests in their order, the two generator expressions, `Stream(data)`, `type(arg)(data)`, the plain call), interpreted
+over the model's vocabulary, never leaves the model and IS the hand-written `elementwise` — for every call. -/
+theorem src_elementwise_is_model (c : ECall) : ALV.Gen.C01.elementwise.run c = some (elementwise c) := by
+  obtain ⟨f, dname, dpos, args, kwargs, arg⟩ := c
+  have key : ∀ (b1 b2 b3 b4 b5 : Bool), arg.kind.isIterable = b1 → arg.kind.isStr = b2 → arg.kind.isSomeGen = b3 →
+      arg.kind.isStream = b4 → (kwargs.any fun kv => kv.1 == dname) = b5 →
+      ALV.Gen.C01.elementwise.run ⟨f, dname, dpos, args, kwargs, arg⟩ = some (elementwise ⟨f, dname, dpos, args, kwargs, arg⟩) := by
+    intro b1 b2 b3 b4 b5 h1 h2 h3 h4 h5
+    have hd : (dname == []) = true ∨ (dname == []) = false := by cases (dname == []) <;> simp
+    rcases hd with hd | hd <;> cases dpos with
+    | none =>
+      by_cases h : 0 < args.length <;> cases b1 <;> cases b2 <;> cases b3 <;> cases b4 <;> cases b5 <;>
+        simp [Src.EwProg.run, ALV.Gen.C01.elementwise, Src.evalEwTest, elementwise, ECall.isPositional, ECall.pos, ECall.data,
+          ECall.plainCall, Src.evalEwLookup, Src.evalEwTree, Src.evalEwExpr, Src.dataSplice, Src.dataKw, Src.plainAt,
+          hd, h, h1, h2, h3, h4, h5]
+    | some p =>
+      by_cases h : p < args.length <;> cases b1 <;> cases b2 <;> cases b3 <;> cases b4 <;> cases b5 <;>
+        simp [Src.EwProg.run, ALV.Gen.C01.elementwise, Src.evalEwTest, elementwise, ECall.isPositional, ECall.pos, ECall.data,
+          ECall.plainCall, Src.evalEwLookup, Src.evalEwTree, Src.evalEwExpr, Src.dataSplice, Src.dataKw, Src.plainAt,
+          hd, h, h1, h2, h3, h4, h5]
+  exact key _ _ _ _ _ rfl rfl rfl rfl rfl
+
+/-- non-vacuity: a list handed over by keyword, another keyword argument present -/
+example : ALV.Gen.C01.elementwise.run ⟨n!"log", n!"x", some 0, [], [(n!"base", .atom 9), (n!"x", .atom 0)],
+      .sized .list 1 [.atom 1, .atom 2]⟩ =
+    some (.cast .list [.app n!"log" [kwMarker n!"base", .atom 9, kwMarker n!"x", .atom 1],
+                       .app n!"log" [kwMarker n!"base", .atom 9, kwMarker n!"x", .atom 2]] (.mapc true n!"log"
+      [kwMarker n!"base", .atom 9, kwMarker n!"x"] [] (.list 1 []))) := by
+  rw [src_elementwise_is_model]; rfl
+
 end ALV.Props.C01
 
 #write_audit "C01"
